@@ -19,6 +19,8 @@ type sessOpts struct {
 	sm        bool // client requests stream management and the server offers it
 	smResume  bool
 	resumeAns string // answer to <resume/> on later connections (default resumed-same)
+	enableAns string // answer to <enable/> (default enabled-resume-true)
+	resumedH  func() int
 	insecure  bool
 	keepalive int64 // seconds, 0 = default
 	// served, if set, runs in the server thread once the session is up
@@ -68,8 +70,14 @@ func newSess(o sessOpts) *sess {
 				if step == "resume" && o.resumeAns != "" {
 					return o.resumeAns
 				}
+				if step == "enable" && o.enableAns != "" {
+					return o.enableAns
+				}
 				return alts[0]
 			}}
+		if o.resumedH != nil {
+			c.resumedH = o.resumedH()
+		}
 		c.established = func(sc *srvConn, r *negRec) {
 			if o.served != nil {
 				o.served(sc, r)
